@@ -204,6 +204,85 @@ CHECKS = {
              "validated against EvalQ after every history.",
         note=TRUST + "Quick: <= 3 statements after the starting point, thorough <= 4. Dropping or renaming an indexed column may be refused or may "
              "take the index along (both conform); columns used by constraints, RENAME TABLE, schemas and ALTER ... ADD/DROP CONSTRAINT are outside this model."),
+    "C21": dict(
+        engine="values", category="model_checking",
+        technique="TLA+ law specification (ValueLaws.tla); TLC enumerates the abstract value universes (MC_Values), vq_values records the real ==/cmp/partial_cmp/Hash relation tables, container behaviour and SQL DISTINCT/GROUP BY/set-operation/JOIN results, TLC validates the recorded tables against the laws (TraceValues)",
+        design="DESIGN.md section 6 (C21), section 10",
+        text="The property demands laws, not a particular relation, so the specification never predicts the relation: ValueLaws.tla states reflexive / symmetric / "
+             "transitive ==, cmp(a,b) converse of cmp(b,a), transitive <=, cmp = Equal <=> ==, partial_cmp agreeing with cmp where defined, equal values hash "
+             "equally, and that HashMap / BTreeMap / sort and the duplicate-eliminating SQL operators (DISTINCT, GROUP BY, UNION / INTERSECT / EXCEPT, "
+             "COUNT(DISTINCT); JOIN / IN with an acceptance set) produce exactly the == classes. TLC enumerates a representative universe (type tag x value "
+             "class over all 15 SqlValue types and NULL: NaN payloads, +-0, +-Inf, extreme integers, equal numbers in different integer types, intervals in "
+             "different units) - all pairs and triples - plus every placement of value classes in a typed column for the SQL operators; the harness "
+             "evaluates the real operations and logs the relation tables; TLC checks the laws on them. MC_Values also model-checks that the law set rejects "
+             "every single-cell corruption of a lawful relation (184 corruptions).",
+        note=TRUST + "Quick: 122-value universe (26 788 pairs, 1.98 M triples) + 1 503 SQL scenarios; thorough: 221 values (12 M triples), 21 899 scenarios. "
+             "Representatives per class, not all values. One known finding (Interval == vs cmp, pinned by existing tests) is reported as KNOWN-FINDING."),
+    "C22": dict(
+        engine="values", category="model_checking",
+        technique="TLA+ calendar / text-form specification (Temporal.tla); TLC enumerates valid DATE/TIME/TIMESTAMP/INTERVAL values, their text forms and edited texts (MC_Temporal), vq_temporal drives the real Display/FromStr/Interval::new, TLC validates (TraceTemporal)",
+        design="DESIGN.md section 6 (C22), section 10",
+        text="Temporal.tla defines calendar validity (month lengths, leap years, field ranges), the canonical text of a value and its other lossless text forms; "
+             "TLC checks on the model the 146 097-day Gregorian cycle, that the canonical text is injective, that no text is a form of two values and that the "
+             "reference reader inverts the writer. Round trip: every combination of boundary components (years 1, 999, 1900, 1999, 2000, 2023, 2024, 9999; "
+             "all months; boundary days / hours / minutes / seconds; 0..9 fractional digits) is formatted by the real code and read back - same components, "
+             "every form reads as the value; interval literals (single-unit and compound) denote the months / days / microseconds the spec assigns. Totality: "
+             "every single edit (replace, insert, delete, duplicate, swap, truncate over an alphabet with 2-, 3- and 4-byte characters and overflowing digit "
+             "runs) of 18 seed texts, plus seeded deeper edit sequences; every parse must return ok or err, never panic, and an accepted text must survive "
+             "its own round trip.",
+        note=TRUST + "Model checking for the round trip, exploration for totality (single edits exhaustive, deeper edits sampled inside the spec from Seed). "
+             "Quick: 14 722 scenarios; thorough 53 250. Parsers are run under catch_unwind (they neither recurse nor allocate by declared sizes)."),
+    "C27": dict(
+        engine="wire", category="model_checking",
+        technique="TLA+ reference decoder with acceptance sets (Wire.tla) evaluated by TLC; TLC-enumerated byte streams replayed into the real decoder; every call validated against the spec by TLC (TraceWire)",
+        design="DESIGN.md section 6 (C27), section 10",
+        text="Wire.tla is a reference decoder for PostgreSQL v3 frontend framing that returns, for any byte string, the SET of answers a correct decoder may "
+             "give (need more / error / message) with the frame end. MC_Wire makes TLC enumerate structured byte streams (every type x boundary length incl. "
+             "negative, 0..5, exact-1..exact+2, i32::MAX x payload over {NUL,'a',0xC3,0xA9} x trailers; startup packets alike; concatenated well-formed "
+             "messages cut at every position) and check round trip, prefix => need-more, frame bound and non-empty acceptance sets. vq_wire (server source "
+             "compiled in by #[path]) replays each stream as feed/decode calls on the real FrontendMessage::decode / decode_startup under catch_unwind; TLC "
+             "decides for each call: outcome class allowed, no panic, need => nothing consumed, error => at most the frame, message => exactly the frame and "
+             "(where determined) exactly the reference message, bytes behind untouched.",
+        note=TRUST + "Quick: payload <= 3, startup body <= 4, one-piece delivery (23 934 streams); thorough: <= 4 / <= 5 plus two cut points (176 858). Harness "
+             "built with overflow checks on. Connection-level handling (connection.rs) is not covered."),
+    "C28": dict(
+        engine="wire", category="model_checking",
+        technique="TLA+ reference encoder and independent one-frame parser (Wire.tla) model-checked by TLC; TLC-enumerated messages encoded by the real code; every frame validated by TLC (TraceWire)",
+        design="DESIGN.md section 6 (C28), section 10",
+        text="Wire.tla holds a reference encoder and an independent one-frame parser for all backend variants; TLC proves over the scenario domain that the "
+             "parser inverts the encoder, the length field counts the bytes after the type byte, a frame stops parsing when a byte is added or removed, and "
+             "distinct messages have distinct encodings. MC_WireEnc enumerates every BackendMessage variant over small field alphabets (300-byte strings, "
+             "i32/i16 extremes, NULL / empty / binary values, lists, rows of 32768 / 65534 / 65535 columns); vq_wire encodes each with the real "
+             "BackendMessage::encode into an empty buffer and behind another message; TLC requires earlier bytes untouched, exactly one frame, length = "
+             "bytes after the type byte, parse-back equal to the message (maps as sets) and byte equality with the reference where field order is fixed.",
+        note=TRUST + "Quick MaxList 2 (281 scenarios), thorough MaxList 3 (1 009). Not representable in the protocol and out of the domain: strings with NUL, "
+             "more than 65535 columns."),
+    "C29": dict(
+        engine="wire", category="model_checking",
+        technique="TLA+ state machine of the password store (Auth.tla) model-checked by TLC; TLC-generated histories and probe sets replayed on the real PasswordStore; every verdict validated against the spec by TLC (TraceAuth)",
+        design="DESIGN.md section 6 (C29), section 10",
+        text="Auth.tla models the store (user -> kind argon2 | md5 | other, password) and states acceptance as an iff; the MD5 digest is represented by its "
+             "input (password o user, salt), assumed injective. MC_Auth explores every store reachable by <= 2 add / load steps over all creation modes (API, "
+             "pre-hashed, {MD5}, raw, malformed PHC, password file) including overwrites, checks the model's theorems (at most one password opens an account, "
+             "no account open to both exchanges, accepted responses well-formed for the issued salt, superseded passwords rejected, an Add changes no other "
+             "user's verdicts), and emits per distinct state its shortest history plus the full probe set (all user x password cleartext requests; MD5 "
+             "responses from every password x user x salt plus 11 near-miss forms). Concrete digests are input construction only; vq_auth drives the real "
+             "PasswordStore (source compiled in by #[path]); TLC compares every accept / reject with the iff.",
+        note=TRUST + "Quick: 573 states / 68 720 events; thorough 1 261 / 151 254. Two users, four passwords incl. empty and non-ASCII, two salts. One known "
+             "finding (bare MD5 digest accepted, pinned by existing tests) is reported as KNOWN-FINDING."),
+    "C34": dict(
+        engine="engine", category="model_checking", technique=T_ENGINE, design="DESIGN.md section 6 (C34), section 10",
+        text="Engine!WithTriggers is the definition: one body execution per matching trigger per affected row with that row's OLD / NEW images, once per "
+             "statement for statement-level triggers (also when no row matches), WHEN gating, UPDATE OF filtering, and - when a firing fails - the whole "
+             "statement fails and nothing changes anywhere. MC_Trg.tla enumerates DML histories (single and multi-row INSERT / UPDATE / DELETE, statements "
+             "matching zero rows, key changes that do not name the watched column) on T1 with four trigger sets: BEFORE / AFTER row triggers for every event; "
+             "statement triggers next to a row trigger; WHEN (NEW.V > 0), WHEN (OLD.V <> NEW.V), UPDATE OF (V); failing bodies (CHECK of a side table) at each "
+             "row position next to an audit trigger. Trigger bodies write (tag, OLD.ID, OLD.V, NEW.ID, NEW.V) into an audit table; the model is checked for "
+             "the firing-count law; triggers are created through the SQL front end; after every statement TLC compares T1, the audit table and the side "
+             "table with the specification.",
+        note=TRUST + "Quick: <= 2 statements after the starting point per trigger set, thorough <= 3. Where the statement assigns the watched column without "
+             "changing its value, both readings of UPDATE OF (assigned / changed) conform. Triggers whose bodies touch the subject table, cascaded firings "
+             "and INSTEAD OF are outside the model."),
 }
 
 NOT_APPLICABLE = {
@@ -213,6 +292,17 @@ PLANNED = "check not built yet (same technique planned, see DESIGN.md section 6)
 
 HOOK_COMMITS = ["2f8c5872cefe0a8b8470394988dc531f4f461daa"]
 ENGINES = {
+    "values": {
+        "path": "/verif/spec/ValueLaws.tla",
+        "text": "TLA+ law / calendar specifications for the value layer (ValueLaws.tla, Temporal.tla) with their enumeration models (MC_Values, MC_Temporal) "
+                "and trace validators (TraceValues, TraceTemporal); harness binaries vq_values, vq_temporal",
+    },
+    "wire": {
+        "path": "/verif/spec/Wire.tla",
+        "text": "TLA+ specifications of the PostgreSQL wire framing (Wire.tla: reference decoder with acceptance sets, reference encoder and frame parser) and of "
+                "password authentication (Auth.tla), their enumeration models (MC_Wire, MC_WireEnc, MC_Auth) and trace validators (TraceWire, TraceAuth); harness "
+                "binaries vq_wire, vq_auth compile the server's protocol/messages.rs and auth/password.rs in by #[path]",
+    },
     "engine": {
         "path": "/verif/spec/Engine.tla",
         "text": "TLA+ specification of the database as a state machine (Engine.tla: catalog, tables, constraints, foreign keys with referential "
